@@ -131,47 +131,49 @@ func (d *Driver) Close() {
 
 // Finding is one disagreement.
 type Finding struct {
-	Kind    string `json:"kind"`    // "correspondence" (engine vs model) or "property" (engine vs spec) or "crash"
-	Group   string `json:"group"`   // LEX, ERRFMT, ...
-	Check   string `json:"check"`   // which comparison failed
-	Case    string `json:"case"`    // human-readable case
-	Line    string `json:"line"`    // the protocol line (replayable)
-	Engine  string `json:"engine"`  // engine output
-	Model   string `json:"model"`   // model or spec output
-	Class   string `json:"class"`   // classification for known findings (may be empty)
-	Seed    uint64 `json:"seed"`
-	Index   uint64 `json:"index"`
-	Detail  string `json:"detail,omitempty"`
+	Kind   string `json:"kind"`   // "correspondence" (engine vs model) or "property" (engine vs spec) or "crash"
+	Group  string `json:"group"`  // LEX, ERRFMT, ...
+	Check  string `json:"check"`  // which comparison failed
+	Case   string `json:"case"`   // human-readable case
+	Line   string `json:"line"`   // the protocol line (replayable)
+	Engine string `json:"engine"` // engine output
+	Model  string `json:"model"`  // model or spec output
+	Class  string `json:"class"`  // classification for known findings (may be empty)
+	Seed   uint64 `json:"seed"`
+	Index  uint64 `json:"index"`
+	Detail string `json:"detail,omitempty"`
+	// Properties this finding speaks about (empty: every property served by the group)
+	Properties []string `json:"properties,omitempty"`
 }
 
 type Summary struct {
-	Group        string         `json:"group"`
-	Tier         string         `json:"tier"`
-	Seed         uint64         `json:"seed"`
-	Evaluations  int64          `json:"evaluations"`
-	Nontrivial   int64          `json:"distinct_nontrivial"`
-	Rule         string         `json:"rule"`
-	Exhaustive   bool           `json:"exhaustive"`
-	Histogram    map[string]int `json:"histogram"`
-	Samples      []string       `json:"samples"`
-	Findings     []Finding      `json:"findings"`
-	NumFindings  int            `json:"num_findings"`
-	WallS        float64        `json:"wall_s"`
-	Notes        []string       `json:"notes,omitempty"`
+	Group       string         `json:"group"`
+	Tier        string         `json:"tier"`
+	Seed        uint64         `json:"seed"`
+	Evaluations int64          `json:"evaluations"`
+	Nontrivial  int64          `json:"distinct_nontrivial"`
+	Rule        string         `json:"rule"`
+	Exhaustive  bool           `json:"exhaustive"`
+	Histogram   map[string]int `json:"histogram"`
+	Samples     []string       `json:"samples"`
+	Findings    []Finding      `json:"findings"`
+	NumFindings int            `json:"num_findings"`
+	WallS       float64        `json:"wall_s"`
+	Notes       []string       `json:"notes,omitempty"`
 }
 
 // Collector is shared by the workers of one group run.
 type Collector struct {
-	mu        sync.Mutex
-	sum       *Summary
-	distinct  map[string]struct{}
-	seenFind  map[string]struct{}
-	maxFind   int
+	mu       sync.Mutex
+	sum      *Summary
+	distinct map[string]struct{}
+	seenFind map[string]struct{}
+	maxFind  int
 }
 
 func NewCollector(group, tier string, seed uint64, rule string) *Collector {
 	return &Collector{
-		sum: &Summary{Group: group, Tier: tier, Seed: seed, Rule: rule, Histogram: map[string]int{}},
+		sum:      &Summary{Group: group, Tier: tier, Seed: seed, Rule: rule, Histogram: map[string]int{}},
 		distinct: map[string]struct{}{},
 		seenFind: map[string]struct{}{},
 		maxFind:  25,
